@@ -35,6 +35,8 @@ class Recorder:
         self.orders = []  # (order, old, new, caller)
         self.trades = []  # (trade, old, new)
         self.completed = []  # (order, size_matched when it was reported complete)
+        self.probe = None  # optional callable(order) evaluated at the write that reports an order complete
+        self.probed = []  # (order, probe value)
 
     def __enter__(self):
         import sys
@@ -47,6 +49,8 @@ class Recorder:
             rec.orders.append((self_, self_.status, status, "%s:%s" % (f.f_code.co_filename.rsplit("/", 1)[-1], f.f_code.co_name)))
             if status == S.EXECUTION_COMPLETE and not any(o is self_ for o, _ in rec.completed):
                 rec.completed.append((self_, self_.size_matched))
+                if rec.probe is not None:
+                    rec.probed.append((self_, rec.probe(self_)))
             return rec._o(self_, status)
 
         def t_upd(self_, status):
